@@ -211,6 +211,8 @@ def run(ctx):
     import translate_staged
     translate_staged.check(ctx)       # staged_write_path / staged_write compiled from _file_store.py and linked to Store/Staged.v by a theorem
     unusual_faults(ctx)
+    leftover_without_target(ctx)
+    file_size_limit(ctx)
     failing_flush(ctx)
     thorough = not ctx.quick
     writers = cc.WRITERS
@@ -378,3 +380,110 @@ def run(ctx):
     for (meta, c), o in list(zip(cases, obs))[:400:97]:
         if o:
             ctx.samples.append({"case": cc.enc(c), "op": meta["op"], "outcome": o["outcome"], "listing": o["listing"]})
+
+
+def leftover_without_target(ctx):
+    """A writer that died during the very FIRST write leaves `<path>.STAGING` and no target.  Nothing is stored: the modified time is
+    None, reading fails, and merely asking does not create the target - for every store, str and pathlib paths, before and after
+    repeated queries."""
+    import os
+    import pathlib
+    import shutil
+    import tempfile
+    import uberjob.stores as st
+    kinds = {"json": (st.JsonFileStore, b'{"a": [1, 2'), "pickle": (st.PickleFileStore, b"\x80\x04\x95\x10\x00\x00"), "text": (st.TextFileStore, b"half a li"),
+             "binary": (st.BinaryFileStore, b"\x00\x01"), "touch": (st.TouchFileStore, b"")}
+    d = tempfile.mkdtemp(prefix="ujc11l_")
+    try:
+        for kind, (cls, partial) in kinds.items():
+            for pk in ("str", "pathlib"):
+                name = os.path.join(d, "%s_%s.dat" % (kind, pk))
+                with open(name + ".STAGING", "wb") as f:
+                    f.write(partial)
+                store = cls(pathlib.Path(name) if pk == "pathlib" else name)
+                problems = []
+                for attempt in (1, 2):
+                    try:
+                        mt = store.get_modified_time()
+                    except Exception as e:      # noqa
+                        mt = "raised %s" % type(e).__name__
+                    if mt is not None:
+                        problems.append("get_modified_time() = %r although nothing was ever stored" % (mt,))
+                    if os.path.exists(name):
+                        problems.append("the target file exists after get_modified_time() (content %r)" % open(name, "rb").read()[:20])
+                        break
+                try:
+                    got = store.read()
+                    problems.append("read() returned %r although nothing was ever stored" % (got,))
+                except OSError:
+                    pass
+                except Exception as e:      # noqa
+                    problems.append("read() raised %s instead of reporting the missing file" % type(e).__name__)
+                ctx.case(("c11-leftover-without-target", kind, pk))
+                if problems:
+                    ctx.fail("leftover:promoted", "%s store, a dead writer's staging file and no target: %s" % (kind, "; ".join(problems)), {"store": kind, "path_kind": pk})
+    finally:
+        shutil.rmtree(d, ignore_errors=True)
+
+
+FSIZE_CHILD = r'''
+import json, os, resource, signal, sys, tempfile, shutil, pathlib
+import uberjob.stores as st
+from uberjob.stores._file_store import staged_write
+signal.signal(signal.SIGXFSZ, signal.SIG_IGN)
+d = tempfile.mkdtemp(prefix="ujc11fs_")
+out = []
+try:
+    OLD = b"old value"
+    big = bytes(range(256)) * 200          # 51200 bytes
+    cases = {"binary": lambda p: st.BinaryFileStore(p).write(big), "pickle": lambda p: st.PickleFileStore(p).write([big, "tail"]),
+             "text": lambda p: st.TextFileStore(p).write("x" * 60000), "json": lambda p: st.JsonFileStore(p).write(["y" * 60000]),
+             "staged_write wb": lambda p: _sw(p)}
+    def _sw(p):
+        with staged_write(p, "wb") as f:
+            f.write(big)
+    for name, do in cases.items():
+        for pk in ("str", "pathlib"):
+            path = os.path.join(d, "%s_%s" % (name.replace(" ", "_"), pk))
+            with open(path, "wb") as f:
+                f.write(OLD)
+            os.utime(path, (1_600_000_000, 1_600_000_000))
+            resource.setrlimit(resource.RLIMIT_FSIZE, (8192, resource.RLIM_INFINITY))
+            try:
+                do(pathlib.Path(path) if pk == "pathlib" else path)
+                oc = "returned"
+            except OSError as e:
+                oc = "oserror"
+            except BaseException as e:
+                oc = "raised %s" % type(e).__name__
+            finally:
+                resource.setrlimit(resource.RLIMIT_FSIZE, (resource.RLIM_INFINITY, resource.RLIM_INFINITY))
+            content = open(path, "rb").read()
+            out.append({"case": name, "path": pk, "outcome": oc, "target_is_old": content == OLD, "target_len": len(content), "mtime_moved": os.stat(path).st_mtime != 1_600_000_000,
+                        "listing": sorted(x for x in os.listdir(d) if x.startswith(os.path.basename(path)))})
+finally:
+    shutil.rmtree(d, ignore_errors=True)
+print(json.dumps({"uberjob": os.path.dirname(st.__file__), "out": out}))
+'''
+
+
+def file_size_limit(ctx):
+    """The file system refuses data part-way (a file-size limit, a quota, a full disk - produced for real with RLIMIT_FSIZE in a helper
+    process): the write fails with the OS error and the target keeps its previous value and modified time; a value cut short is never
+    renamed into place."""
+    import json
+    import subprocess
+    p = subprocess.run([core.PY, "-c", FSIZE_CHILD], env=core.repo_env(), stdout=subprocess.PIPE, stderr=subprocess.PIPE, text=True, timeout=120)
+    ctx.case(("c11-file-size-limit",))
+    if p.returncode != 0:
+        ctx.broke("C11 file-size-limit helper failed", p.stderr[-1500:])
+        return
+    rep = json.loads(p.stdout)
+    if not rep["uberjob"].startswith(core.REPO_SRC):
+        ctx.broke("C11 helper imported uberjob from the wrong place", rep["uberjob"])
+    for r in rep["out"]:
+        ctx.case(("c11-file-size-limit", r["case"], r["path"]))
+        if r["outcome"] != "oserror" or not r["target_is_old"] or r["mtime_moved"] or len(r["listing"]) != 1:
+            ctx.fail("size-limit", "%s (%s path) under a file-size limit of 8192 bytes: the write %s; the target %s (%d bytes), its modified time %s; files: %r"
+                     % (r["case"], r["path"], r["outcome"], "keeps the previous value" if r["target_is_old"] else "no longer holds the previous value", r["target_len"],
+                        "moved" if r["mtime_moved"] else "did not move", r["listing"]), r)
